@@ -11,7 +11,7 @@ LAYOUT_ACTIONS = ["OriginDirective", "TtlDirective", "IncludeDirective",
 
 META = {
     "category": "model_checking",
-    "text": "ZoneFile.tla transcribes the reader as a tokenizer machine (one step per octet, one branch per character class, parenthesis depth, comments, quotes, escapes) feeding an entry machine (origin, last owner, last TTL, $TTL, last class; $ORIGIN/$TTL/$INCLUDE, explicit/@/inherited owner, TTL-class orders, TXT/NS/CNAME/PTR/DNAME/MX/HINFO and RFC 3597 generic data). TLC checks on it, for every string over ten character classes up to length 5 (quick) / 6 (thorough) in two contexts, that the reader is total, never panics, keeps parentheses non-negative, never writes past its read cursor, treats end of input inside a token as an error and keeps errors sticky; and, for every logical file of up to 2 / 3 entries over a dictionary and every layout (owner absolute / relative / @ / inherited, TTL and class written or inherited, order, spacing, CRLF, parenthesised continuation, comments, blank lines, plain / escaped / quoted tokens), that the reader returns exactly the logical records. Every explored string and every (file, layout) is replayed into zonefile::inplace::Zonefile with the full expected entry list; recorded runs on random octets, token soup and mutated test-data zone files (panic / hang watch on all, outcome validated by TLC for short ones) and pairs of random renderings of random logical files are validated by TLC against the machines.",
+    "text": "ZoneFile.tla transcribes the reader as a tokenizer machine (one step per octet, one branch per character class, parenthesis depth, comments, quotes, escapes) feeding an entry machine (origin, last owner, last TTL, $TTL, last class; $ORIGIN/$TTL/$INCLUDE, explicit/@/inherited owner, TTL-class orders, TXT/NS/CNAME/PTR/DNAME/MX/HINFO and RFC 3597 generic data). TLC checks on it, for every string over ten character classes up to length 5 (quick) / 6 (thorough) in two contexts, that the reader is total, never panics, keeps parentheses non-negative, never writes past its read cursor, treats end of input inside a token as an error and keeps errors sticky; and, for every logical file of up to 2 / 3 entries over a dictionary and every layout (owner absolute / relative / @ / inherited, TTL and class written or inherited, order, spacing, CRLF, parenthesised continuation, comments, blank lines, plain / escaped / quoted tokens), that the reader returns exactly the logical records; and, for strings / labels / names just below, at and above their length limits (255 / 63 / 255 octets) in nine spellings (plain, quoted, one \\DDD or \\c escape at the start, middle, end), that every spelling gives the same limit-respecting outcome. Every explored string and every (file, layout) is replayed into zonefile::inplace::Zonefile with the full expected entry list; recorded runs on random octets, token soup and mutated test-data zone files (panic / hang watch on all, outcome validated by TLC for short ones) and pairs of random renderings of random logical files are validated by TLC against the machines; about 400 hostile-size inputs per trace (name tokens of 300 ... 140000 octets in four label shapes and six positions, 1 MiB strings, lines, hex / Base64 / Base32 blobs, 100-digit integers, 10^5 nested parentheses) must end in entries or an error, never a panic or a hang.",
     "note": "Trusted: TLC, the transcription in ZoneFile.tla, the harness executors, the Rust layout renderer of the recorder. Errors are compared as accept/reject (not message or position). Record types other than TXT, NS, CNAME, PTR, DNAME, MX, HINFO and the generic form, TTL values >= 2^31, UTF-8 in $INCLUDE paths are 'unmodelled': the spec abstains. Inputs beyond the explored lengths are sampled. $INCLUDE is only reported, not resolved. Five defects of the reader are modelled as named deviations (known findings).",
     "technique": "TLA+ spec (ZoneFile.tla) + TLC exhaustive; spec->impl case replay; impl->spec trace validation",
     "design_ref": "DESIGN.md §4 C07",
@@ -55,6 +55,10 @@ def run(ctx):
     ctx.require_ok(mc, "MC_ZoneFile")
     mcl = ctx.tlc("MC_ZoneLayout", "MC_ZoneLayout" + suffix, workers=8, label="mc-layout", coverage=False)
     ctx.require_ok(mcl, "MC_ZoneLayout")
+    # limit shapes: strings of 254..257, labels of 62..65, names of 253..256 octets
+    # in nine spellings (plain, quoted, \\DDD / \\c at the start, middle, end)
+    mclim = ctx.tlc("MC_ZoneLimits", "MC_ZoneLimits", workers=4, label="mc-limits", coverage=False)
+    ctx.require_ok(mclim, "MC_ZoneLimits")
     ctx.exhaustive_flags.append(True)
     # documentation of the findings: with the deviations on, the properties fail
     d1 = ctx.tlc("MC_ZoneFile", "MC_ZoneFile_dev", workers=2, label="mc-chars-dev",
@@ -93,6 +97,14 @@ def run(ctx):
         raise vlib.ToolError("layout generator produced too few cases")
     ctx.replay_cases("replay_zonefile", lcases, label="layouts")
 
+    limcases = os.path.join(ctx.work, "cases-limits.ndjson")
+    genlim = ctx.tlc("MC_ZoneLimits", "Gen_ZoneLimits", workers=4, label="gen-limits",
+                     coverage=False, cases_to=limcases, count=False)
+    ctx.require_ok(genlim, "Gen_ZoneLimits")
+    _actions_from_cases(ctx, genlim, limcases)
+    ctx.require_actions(genlim, ["txt", "txt2", "hinfo", "label", "rdlabel", "name"])
+    ctx.replay_cases("replay_zonefile", limcases, label="limits")
+
     # 3. I->S ----------------------------------------------------------------
     n_traces = 4 if thorough else 2
     n_total = 120000 if thorough else 40000
@@ -113,7 +125,9 @@ def run(ctx):
         if rc != 0 or "RECORDED " not in out:
             raise vlib.ToolError("record_zonefile failed: " + (out + err)[-500:])
         rec = json.loads(out[out.index("RECORDED ") + 9:].splitlines()[0])
-        ctx.evaluations += rec["inputs"] + 2 * rec["meta"]
+        ctx.evaluations += rec["inputs"] + 2 * rec["meta"] + rec.get("hostile", 0)
+        if rec.get("hostile", 0) < 300:
+            raise vlib.ToolError("hostile-size generator produced too few inputs")
         ctx.stage("record-%d" % i, rec)
         ok, res, rej = ctx.validate_trace("Trace_ZoneFile", "Trace_ZoneFile", tr, label="trace-%d" % i)
         ctx.traces += 1
